@@ -539,6 +539,329 @@ class Gen:
         return '\n'.join(L) + '\n'
 
 
+
+# ---------------------------------------------------------------- replay harness
+class Replay:
+    """Emits a Go test file (package nfstypes, injected with go test -overlay) holding an
+    independent reference encoder for every XDR type, written from the grammar, witness values
+    for every union arm / optional member, and differential tests of the real generated code:
+    per type (encode, decode, truncated input), per handler wrapper, per registration table."""
+
+    def __init__(self, g):
+        self.g = g
+        self.L = []
+
+    def w(self, s=''):
+        self.L.append(s)
+
+    def enc_use(self, d, e):
+        """Go statements appending the RFC layout of member e (an lvalue expression) to *b"""
+        g = self.g
+        kind, base = d['kind'], d['base']
+        n = g.const(d.get('n'))
+        if kind == 'plain':
+            if base in ('u32', 'i32'):
+                return 'zzU32(b, uint32(%s))' % e
+            if base in ('u64', 'i64'):
+                return 'zzU64(b, uint64(%s))' % e
+            if base == 'bool':
+                return 'zzBool(b, bool(%s))' % e
+            return 'zzEnc_%s(b, (*%s)(&%s))' % (goname(base), goname(base), e)
+        if kind == 'opt':
+            G = goname(base)
+            return 'if %s != nil { zzU32(b, 1); zzEnc_%s(b, %s) } else { zzU32(b, 0) }' % (e, G, e)
+        if kind == 'fixed':
+            return 'zzFix(b, %s[:])' % e
+        if kind == 'var':
+            if base == 'string':
+                return 'zzVar(b, []byte(string(%s)))' % e
+            if base == 'opaque':
+                return 'zzVar(b, []byte(%s))' % e
+            return 'zzU32(b, uint32(len(%s))); for _, x := range %s { zzU32(b, uint32(x)) }' % (e, e)
+        raise NotImplementedError(kind)
+
+    def fill_use(self, d, e):
+        g = self.g
+        kind, base = d['kind'], d['base']
+        n = g.const(d.get('n'))
+        if kind == 'plain':
+            if base in ('u32', 'i32'):
+                return 'zzSet(&%s, r.next())' % e
+            if base in ('u64', 'i64'):
+                return 'zzSet(&%s, r.next())' % e
+            if base == 'bool':
+                return '%s = r.next()%%2 == 0' % e
+            return 'zzFill_%s((*%s)(&%s), r, depth)' % (goname(base), goname(base), e)
+        if kind == 'opt':
+            G = goname(base)
+            return 'if depth < 2 && r.next()%%3 != 0 { %s = new(%s); zzFill_%s(%s, r, depth+1) }' % (e, G, G, e)
+        if kind == 'fixed':
+            return 'for i := range %s { %s[i] = byte(r.next()) }' % (e, e)
+        if kind == 'var':
+            mx = n if n is not None else 9
+            mx = min(mx, 9)
+            if base == 'string':
+                return 'zzSetStr(&%s, r, %d)' % (e, mx)
+            if base == 'opaque':
+                return 'zzSetBytes(&%s, r, %d)' % (e, mx)
+            return '%s = nil; for k := uint64(0); k < r.next()%%4; k++ { %s = append(%s, uint32(r.next())) }' % (e, e, e)
+        raise NotImplementedError(kind)
+
+    def emit_types(self):
+        g, w = self.g, self.w
+        for name in g.order:
+            t = g.types[name]
+            G = goname(name)
+            w('func zzEnc_%s(b *[]byte, v *%s) {' % (G, G))
+            if t['form'] == 'enum':
+                w('\tzzU32(b, uint32(*v))')
+            elif t['form'] == 'typedef':
+                d = t['decl']
+                if d['kind'] == 'opt':
+                    w('\t' + self.enc_use(d, 'v.P'))
+                else:
+                    w('\t' + self.enc_use(d, '(*v)'))
+            elif t['form'] == 'struct':
+                for f in t['fields']:
+                    w('\t' + self.enc_use(f, 'v.' + goname(f['name'])))
+            elif t['form'] == 'union':
+                d = t['disc']
+                de = 'v.' + goname(d['name'])
+                w('\t' + self.enc_use(d, de))
+                isbool = d['base'] == 'bool'
+                w('\tswitch {')
+                for labels, a in t['arms']:
+                    conds = []
+                    for l in labels:
+                        conds.append((de if l == 'TRUE' else '!' + de) if isbool else 'uint32(%s) == %d' % (de, g.consts[l]))
+                    w('\tcase ' + ' || '.join(conds) + ':')
+                    if a['kind'] != 'void':
+                        w('\t\t' + self.enc_use(a, 'v.' + goname(a['name'])))
+                w('\tdefault:')
+                if t['default'] is not None and t['default']['kind'] != 'void':
+                    w('\t\t' + self.enc_use(t['default'], 'v.' + goname(t['default']['name'])))
+                w('\t}')
+            w('}')
+            # witness
+            w('func zzFill_%s(v *%s, r *zzR, depth int) {' % (G, G))
+            if t['form'] == 'enum':
+                vals = ', '.join(str(v) for _, v in t['vals'])
+                w('\tvals := []uint32{%s}' % vals)
+                w('\t*v = %s(vals[r.next()%%uint64(len(vals))])' % G)
+            elif t['form'] == 'typedef':
+                d = t['decl']
+                if d['kind'] == 'opt':
+                    w('\t' + self.fill_use(d, 'v.P'))
+                elif d['kind'] == 'plain' and d['base'] in ('u32', 'i32', 'u64', 'i64'):
+                    w('\tzzSet(v, r.next())')
+                elif d['kind'] == 'plain' and d['base'] == 'bool':
+                    w('\t*v = r.next()%2 == 0')
+                else:
+                    w('\t' + self.fill_use(d, '(*v)'))
+            elif t['form'] == 'struct':
+                for f in t['fields']:
+                    w('\t' + self.fill_use(f, 'v.' + goname(f['name'])))
+            elif t['form'] == 'union':
+                d = t['disc']
+                de = 'v.' + goname(d['name'])
+                isbool = d['base'] == 'bool'
+                arms = []
+                for labels, a in t['arms']:
+                    for l in labels:
+                        arms.append((l, a))
+                if t['default'] is not None and not isbool:
+                    used = set(g.consts[l] for l, _ in arms)
+                    et = g.types.get(d['base'])
+                    other = None
+                    if et and et['form'] == 'enum':
+                        for _, ev in et['vals']:
+                            if ev not in used:
+                                other = ev
+                                break
+                    if other is not None:
+                        arms.append((other, t['default']))
+                w('\tswitch (r.arm + int(r.next()%%7)) %% %d {' % len(arms))
+                for k, (l, a) in enumerate(arms):
+                    w('\tcase %d:' % k)
+                    if isbool:
+                        w('\t\t%s = %s' % (de, 'true' if l == 'TRUE' else 'false'))
+                    else:
+                        val = l if isinstance(l, int) else g.consts[l]
+                        w('\t\tzzSet(&%s, %d)' % (de, val))
+                    if a['kind'] != 'void':
+                        w('\t\t' + self.fill_use(a, 'v.' + goname(a['name'])))
+                w('\t}')
+            w('}')
+            w('func TestZZReplayType_%s(t *testing.T) {' % G)
+            w('\tfor arm := 0; arm < 12; arm++ {')
+            w('\t\tvar v %s' % G)
+            w('\t\tzzFill_%s(&v, &zzR{n: uint64(arm)*7919 + 1, arm: arm}, 0)' % G)
+            w('\t\tvar ref []byte')
+            w('\t\tzzEnc_%s(&ref, &v)' % G)
+            w('\t\tgot, err := xdr.EncodeBuf(&v)')
+            w('\t\tif err != nil || !bytes.Equal(got, ref) {')
+            w('\t\t\tfmt.Printf("REPLAY-MISMATCH: encoding %s value %%+v\\n  real code: %%x (err %%v)\\n  RFC layout: %%x\\n", v, got, err, ref)' % G)
+            w('\t\t\treturn')
+            w('\t\t}')
+            w('\t\tvar d %s' % G)
+            w('\t\tif err := xdr.DecodeBuf(ref, &d); err != nil {')
+            w('\t\t\tfmt.Printf("REPLAY-MISMATCH: decoding the RFC layout %%x of %s value %%+v fails: %%v\\n", ref, v, err)' % G)
+            w('\t\t\treturn')
+            w('\t\t}')
+            w('\t\tvar re []byte')
+            w('\t\tzzEnc_%s(&re, &d)' % G)
+            w('\t\tif !bytes.Equal(re, ref) {')
+            w('\t\t\tfmt.Printf("REPLAY-MISMATCH: decoding the RFC layout %%x of %s value %%+v gives %%+v\\n", ref, v, d)' % G)
+            w('\t\t\treturn')
+            w('\t\t}')
+            w('\t\tif len(ref) > 0 {')
+            w('\t\t\tvar d2 %s' % G)
+            w('\t\t\tif err := xdr.DecodeBuf(ref[:len(ref)-1], &d2); err == nil {')
+            w('\t\t\t\tfmt.Printf("REPLAY-MISMATCH: the truncated message %%x is accepted as a %s\\n", ref[:len(ref)-1])' % G)
+            w('\t\t\t\treturn')
+            w('\t\t\t}')
+            w('\t\t}')
+            w('\t}')
+            w('\tfmt.Println("REPLAY-AGREES")')
+            w('}')
+            w()
+
+    def emit_progs(self):
+        g, w = self.g, self.w
+        for prog in g.progs:
+            for ver in prog['vers']:
+                iface = '%s_%s_handler' % (prog['name'], ver['name'])
+                fake = 'zzFake_' + prog['name']
+                w('type %s struct {' % fake)
+                w('\tcalls []string')
+                w('\targ   []byte')
+                w('}')
+                for pr in ver['procs']:
+                    arg = None if pr['arg'] == 'void' else goname(pr['arg'])
+                    ret = None if pr['ret'] == 'void' else goname(pr['ret'])
+                    sig = 'func (f *%s) %s(%s)%s {' % (fake, pr['name'], ('a ' + arg) if arg else '', (' ' + ret) if ret else '')
+                    w(sig)
+                    w('\tf.calls = append(f.calls, "%s")' % pr['name'])
+                    w('\tf.arg = nil')
+                    if arg:
+                        w('\tzzEnc_%s(&f.arg, &a)' % arg)
+                    if ret:
+                        w('\tvar r %s' % ret)
+                        w('\tzzFill_%s(&r, &zzR{n: %d, arm: 1}, 0)' % (ret, pr['num'] + 3))
+                        w('\treturn r')
+                    w('}')
+                for pr in ver['procs']:
+                    arg = None if pr['arg'] == 'void' else goname(pr['arg'])
+                    ret = None if pr['ret'] == 'void' else goname(pr['ret'])
+                    w('func TestZZReplayWrapper_%s(t *testing.T) {' % pr['name'])
+                    w('\tfor arm := 0; arm < 6; arm++ {')
+                    w('\t\tf := &%s{}' % fake)
+                    w('\t\tw := &%s_wrapper{f}' % iface)
+                    w('\t\tvar ref []byte')
+                    if arg:
+                        w('\t\tvar a %s' % arg)
+                        w('\t\tzzFill_%s(&a, &zzR{n: uint64(arm)*104729 + 5, arm: arm}, 0)' % arg)
+                        w('\t\tzzEnc_%s(&ref, &a)' % arg)
+                    w('\t\tres, err := w.%s(xdr.MakeReader(ref))' % pr['name'])
+                    w('\t\t_ = res')
+                    w('\t\tif err != nil || len(f.calls) != 1 || f.calls[0] != "%s" || !bytes.Equal(f.arg, ref) {' % pr['name'])
+                    w('\t\t\tfmt.Printf("REPLAY-MISMATCH: wrapper %s on well-formed arguments %%x: err %%v, handler calls %%v, arguments seen by the handler %%x\\n", ref, err, f.calls, f.arg)' % pr['name'])
+                    w('\t\t\treturn')
+                    w('\t\t}')
+                    if ret:
+                        w('\t\tvar want %s' % ret)
+                        w('\t\tzzFill_%s(&want, &zzR{n: %d, arm: 1}, 0)' % (ret, pr['num'] + 3))
+                        w('\t\tvar wb, gb []byte')
+                        w('\t\tzzEnc_%s(&wb, &want)' % ret)
+                        w('\t\tif rp, ok := res.(*%s); ok && rp != nil { zzEnc_%s(&gb, rp) }' % (ret, ret))
+                        w('\t\tif !bytes.Equal(wb, gb) {')
+                        w('\t\t\tfmt.Printf("REPLAY-MISMATCH: wrapper %s does not hand back the handler\'s result: %%x instead of %%x\\n", gb, wb)' % pr['name'])
+                        w('\t\t\treturn')
+                        w('\t\t}')
+                    if arg:
+                        w('\t\tif len(ref) > 0 {')
+                        w('\t\t\tf2 := &%s{}' % fake)
+                        w('\t\t\tw2 := &%s_wrapper{f2}' % iface)
+                        w('\t\t\t_, err := w2.%s(xdr.MakeReader(ref[:len(ref)-1]))' % pr['name'])
+                        w('\t\t\tif err == nil || len(f2.calls) != 0 {')
+                        w('\t\t\t\tfmt.Printf("REPLAY-MISMATCH: wrapper %s on the truncated arguments %%x: err %%v, handler calls %%v\\n", ref[:len(ref)-1], err, f2.calls)' % pr['name'])
+                        w('\t\t\t\treturn')
+                        w('\t\t\t}')
+                        w('\t\t}')
+                    w('\t}')
+                    w('\tfmt.Println("REPLAY-AGREES")')
+                    w('}')
+                w('func TestZZReplayRegs_%s_%s(t *testing.T) {' % (prog['name'], ver['name']))
+                w('\tf := &%s{}' % fake)
+                w('\tregs := %s_%s_regs(f)' % (prog['name'], ver['name']))
+                w('\tif len(regs) != %d {' % len(ver['procs']))
+                w('\t\tfmt.Printf("REPLAY-MISMATCH: %%d registrations instead of %d\\n", len(regs))' % len(ver['procs']))
+                w('\t\treturn')
+                w('\t}')
+                for pr in ver['procs']:
+                    arg = None if pr['arg'] == 'void' else goname(pr['arg'])
+                    w('\t{')
+                    w('\t\tvar ref []byte')
+                    if arg:
+                        w('\t\tvar a %s' % arg)
+                        w('\t\tzzFill_%s(&a, &zzR{n: 11, arm: 2}, 0)' % arg)
+                        w('\t\tzzEnc_%s(&ref, &a)' % arg)
+                    w('\t\tn := 0')
+                    w('\t\tfor _, rg := range regs {')
+                    w('\t\t\tif rg.Proc == %d {' % pr['num'])
+                    w('\t\t\t\tn++')
+                    w('\t\t\t\tf.calls = nil')
+                    w('\t\t\t\trg.Handler(xdr.MakeReader(ref))')
+                    w('\t\t\t\tif rg.Prog != %d || rg.Vers != %d || len(f.calls) != 1 || f.calls[0] != "%s" {' % (prog['num'], ver['num'], pr['name']))
+                    w('\t\t\t\t\tfmt.Printf("REPLAY-MISMATCH: procedure %d of program %%d version %%d reaches handler %%v instead of %s\\n", rg.Prog, rg.Vers, f.calls)' % (pr['num'], pr['name']))
+                    w('\t\t\t\t\treturn')
+                    w('\t\t\t\t}')
+                    w('\t\t\t}')
+                    w('\t\t}')
+                    w('\t\tif n != 1 {')
+                    w('\t\t\tfmt.Printf("REPLAY-MISMATCH: procedure %d is registered %%d times\\n", n)' % pr['num'])
+                    w('\t\t\treturn')
+                    w('\t\t}')
+                    w('\t}')
+                w('\tfmt.Println("REPLAY-AGREES")')
+                w('}')
+                w()
+
+    def emit(self):
+        w = self.w
+        w('package nfstypes')
+        w()
+        w('// GENERATED by /verif/tools/xdrgen.py --replay-test from the RFC 1813 XDR grammar: an independent')
+        w('// reference encoder, witness values and differential tests of the real generated code.')
+        w('import (')
+        w('\t"bytes"')
+        w('\t"fmt"')
+        w('\t"testing"')
+        w()
+        w('\t"github.com/zeldovich/go-rpcgen/xdr"')
+        w(')')
+        w()
+        w('type zzR struct {')
+        w('\tn   uint64')
+        w('\tarm int')
+        w('}')
+        w()
+        w('func (r *zzR) next() uint64 { r.n = r.n*6364136223846793005 + 1442695040888963407; return r.n >> 33 }')
+        w('func zzU32(b *[]byte, x uint32) { *b = append(*b, byte(x>>24), byte(x>>16), byte(x>>8), byte(x)) }')
+        w('func zzU64(b *[]byte, x uint64) { zzU32(b, uint32(x>>32)); zzU32(b, uint32(x)) }')
+        w('func zzBool(b *[]byte, x bool)  { if x { zzU32(b, 1) } else { zzU32(b, 0) } }')
+        w('func zzFix(b *[]byte, p []byte) { *b = append(*b, p...); for len(*b)%4 != 0 { *b = append(*b, 0) } }')
+        w('func zzVar(b *[]byte, p []byte) { zzU32(b, uint32(len(p))); zzFix(b, p) }')
+        w('func zzSet[T ~uint32 | ~uint64 | ~int32 | ~int64](p *T, x uint64) { *p = T(x) }')
+        w('func zzSetStr[T ~string](p *T, r *zzR, mx uint64) { n := r.next() % (mx + 1); s := make([]byte, n); for i := range s { s[i] = byte(97 + r.next()%26) }; *p = T(s) }')
+        w('func zzSetBytes[T ~[]byte](p *T, r *zzR, mx uint64) { n := r.next() % (mx + 1); s := make([]byte, n); for i := range s { s[i] = byte(r.next()) }; *p = T(s) }')
+        w()
+        self.emit_types()
+        self.emit_progs()
+        w('var _ = testing.Short')
+        return '\n'.join(self.L) + '\n'
+
+
 def main():
     global OUT
     if '--repo' in sys.argv:
@@ -552,6 +875,10 @@ def main():
             print('xdrgen: %s differs from the contracts generated from %s' % (OUT, PROT))
             sys.exit(1)
         print('xdrgen: contract file matches the RFC grammar (%d types)' % len(order))
+        return
+    if '--replay-test' in sys.argv:
+        out = sys.argv[sys.argv.index('--replay-test') + 1]
+        open(out, 'w').write(Replay(g).emit())
         return
     if '--stdout' in sys.argv:
         sys.stdout.write(text)
